@@ -23,6 +23,13 @@ def main(argv):
 
     repo.bind()
     mod = importlib.import_module(f"vq.props.{pid.lower()}")
+    # heavy third-party imports happen before any per-case deadline is armed: an alarm that fires in the middle of an import
+    # leaves half-initialised modules in sys.modules and every later case of this worker fails
+    for name in ["qlasskit", "sympy"] + list(getattr(mod, "PREIMPORT", [])):
+        try:
+            importlib.import_module(name)
+        except Exception:
+            pass
     if hasattr(mod, "setup"):
         mod.setup()
     deadline = float(getattr(mod, "CASE_TIMEOUT", {}).get(tier, 60)) * float(os.environ.get("VQ_TIMEOUT_SCALE", "1"))
